@@ -11,7 +11,7 @@ check_C16() {
 }
 
 check_C18() {
-  build_inpkg c18_static_route_verif_test.go
+  build_inpkg fixture_verif_test.go c18_static_route_verif_test.go
   inpkg_test inpkg TestVerifC18
 }
 
